@@ -540,6 +540,65 @@ impl<R: Read> Read for DribbleReader<R> {
     }
 }
 
+/// A `Read + Seek` that returns short reads like `DribbleReader` and, once, when the stream
+/// position reaches `fail_at`, a *transient* error (`WouldBlock`, `TimedOut` or `Interrupted`) -
+/// what a socket with a read timeout or a non-blocking source does.  After the error it goes on
+/// delivering from where it stopped.  A decoder may give up (an error) or resume correctly (the
+/// same value as from a clean reader); what it must not do is start over and return a value
+/// decoded from bytes that are not at their offsets.
+pub struct FlakyReader<R> {
+    inner: R,
+    pos: u64,
+    fail_at: u64,
+    kind: io::ErrorKind,
+    failed: bool,
+    step: usize,
+}
+
+impl<R> FlakyReader<R> {
+    pub fn new(inner: R, fail_at: u64, kind_selector: u64) -> Self {
+        let kind = match kind_selector % 3 {
+            0 => io::ErrorKind::WouldBlock,
+            1 => io::ErrorKind::TimedOut,
+            _ => io::ErrorKind::Interrupted,
+        };
+        FlakyReader { inner, pos: 0, fail_at, kind, failed: false, step: 1 + (kind_selector / 3 % 40) as usize }
+    }
+    pub fn kind(&self) -> io::ErrorKind {
+        self.kind
+    }
+    pub fn has_failed(&self) -> bool {
+        self.failed
+    }
+}
+
+impl<R: Read> Read for FlakyReader<R> {
+    fn read(&mut self, buf: &mut [u8]) -> io::Result<usize> {
+        if buf.is_empty() {
+            return Ok(0);
+        }
+        if !self.failed && self.pos >= self.fail_at {
+            self.failed = true;
+            return Err(io::Error::new(self.kind, "transient failure injected by the harness"));
+        }
+        let mut n = self.step.min(buf.len());
+        if !self.failed {
+            n = n.min((self.fail_at - self.pos) as usize).max(1);
+        }
+        let got = self.inner.read(&mut buf[..n])?;
+        self.pos += got as u64;
+        Ok(got)
+    }
+}
+
+impl<R: Seek> Seek for FlakyReader<R> {
+    fn seek(&mut self, pos: SeekFrom) -> io::Result<u64> {
+        let p = self.inner.seek(pos)?;
+        self.pos = p;
+        Ok(p)
+    }
+}
+
 impl<R: Seek> Seek for DribbleReader<R> {
     fn seek(&mut self, pos: SeekFrom) -> io::Result<u64> {
         self.inner.seek(pos)
